@@ -448,6 +448,20 @@ class CallMixin:
             return SV(Ty("range"), py=(a[0], a[1]))
         raise Unsupported("range with step")
 
+    def bi_next(self, node, st, ctx):
+        """next(it) on a ghost iterator object Iter{seq: list, pos: int}"""
+        (it,) = self.args_of(node, st, ctx)
+        if it.ty != Obj("Iter"):
+            raise Unsupported("next() on %r" % it.ty)
+        decl = self.reg.classes["Iter"]["fields"]
+        seq = self.getattr_sv(it, "seq", st, ctx, node)
+        pos = self.getattr_sv(it, "pos", st, ctx, node)
+        n = st.list_len(seq.ty, seq.t)
+        ctx.exc(pos.t >= n, "StopIteration", node)
+        v = self.wrap(st.list_elems(seq.ty, seq.t)[pos.t], seq.ty.args[0])
+        st.set_field("Iter", "pos", decl["pos"], it.t, pos.t + 1)
+        return v
+
     def bi_iter(self, node, st, ctx):
         raise Unsupported("iter()")
 
